@@ -13,12 +13,14 @@ from harness.structs_common import TypeHole, set_inner, WGSL_SCALAR
 
 SRC = '''struct VA { @location(0) a0: vec2<u32>, @builtin(vertex_index) a1: u32, @location(1) a2: vec3<u32> }
 struct VB { @location(2) b0: vec4<u32>, @location(3) b1: vec2<i32> }
+struct VC { @builtin(vertex_index) c0: u32, @builtin(instance_index) c1: u32 }
+@vertex fn e3(c: VC, a: VA) -> @builtin(position) vec4<f32> { return vec4<f32>(0.0); }
 @vertex fn e0(a: VA, b: VB) -> @builtin(position) vec4<f32> { return vec4<f32>(0.0); }
 @vertex fn e1(b: VB) -> @builtin(position) vec4<f32> { return vec4<f32>(0.0); }
 @vertex fn e2(x: VB, @builtin(instance_index) ii: u32, a: VA) -> @builtin(position) vec4<f32> { return vec4<f32>(0.0); }
 @fragment fn fs() {}
 '''
-MEMBERS = {'VA': ['a0', 'a1', 'a2'], 'VB': ['b0', 'b1']}
+MEMBERS = {'VA': ['a0', 'a1', 'a2'], 'VB': ['b0', 'b1'], 'VC': ['c0', 'c1']}
 PLACE = {'a0': ('Vector', 'Bi', 'Uint'), 'a2': ('Vector', 'Tri', 'Uint'), 'b0': ('Vector', 'Quad', 'Uint'), 'b1': ('Vector', 'Bi', 'Sint')}
 
 
@@ -164,7 +166,7 @@ def run(ctx):
 
 def conditions(impls, en, holes, binds, B_):
     B = z3.BoolVal
-    conds = [('exactly one impl per vertex input struct (shared structs de-duplicated)', B(sorted(impls) == ['VA', 'VB'] and all(v['count_impls'] == 1 for v in impls.values())))]
+    conds = [('exactly one impl per vertex input struct (shared structs de-duplicated)', B(sorted(impls) == ['VA', 'VB', 'VC'] and all(v['count_impls'] == 1 for v in impls.values())))]
     for sname, ms in MEMBERS.items():
         I = impls.get(sname)
         if I is None:
@@ -193,7 +195,8 @@ def conditions(impls, en, holes, binds, B_):
                         f_ok = z3.And(h.kind == h.SK[fs['kind']], h.width == fs['width'],
                                       z3.If(h.tdisc == h.TI['Scalar'], B(fs['n'] == 1), h.vsize == fs['n']))
                 else:
-                    want = {'a0': ('Uint', 4, 2), 'a1': ('Uint', 4, 1), 'a2': ('Uint', 4, 3), 'b0': ('Uint', 4, 4), 'b1': ('Sint', 4, 2)}[n]
+                    want = {'a0': ('Uint', 4, 2), 'a1': ('Uint', 4, 1), 'a2': ('Uint', 4, 3), 'b0': ('Uint', 4, 4), 'b1': ('Sint', 4, 2),
+                            'c0': ('Uint', 4, 1), 'c1': ('Uint', 4, 1)}[n]
                     f_ok = B(fs is not None and (fs['kind'], fs['width'], fs['n']) == want and not fs['norm'])
                 alts.append(z3.And(c_, before == j, loc_ok, f_ok, B(a['of_struct'] == sname and a['of_field'] == n)))
             conds.append((f'{sname}: attribute {j} carries its member\'s location, format and field offset', z3.Or(alts)))
@@ -203,8 +206,8 @@ def conditions(impls, en, holes, binds, B_):
                                 'attributes': f'& {sname} :: VERTEX_ATTRIBUTES'}
                         and I.get('layout_sig') == ('step_mode : wgpu :: VertexStepMode', "wgpu :: VertexBufferLayout < ' static >"))))
     v = en['vertex']
-    want_entries = {'e0_entry': ['VA', 'VB'], 'e1_entry': ['VB'], 'e2_entry': ['VB', 'VA']}
-    sn = {'VA': 'v_a', 'VB': 'v_b'}
+    want_entries = {'e0_entry': ['VA', 'VB'], 'e1_entry': ['VB'], 'e2_entry': ['VB', 'VA'], 'e3_entry': ['VC', 'VA']}
+    sn = {'VA': 'v_a', 'VB': 'v_b', 'VC': 'v_c'}
     for fn, structs in want_entries.items():
         e = v.get(fn)
         conds.append((f'{fn}: one buffer layout per struct parameter in parameter order with the caller\'s step modes',
@@ -254,6 +257,8 @@ def replay(ctx, spell, bv, B_, mj):
     bad = []
     impls = decode_vertex_impls(toks)
     for sname in MEMBERS:
+        if sname not in named:
+            continue
         want = []
         for mb in d2['types'][named[sname]]['inner']['Struct']['members']:
             b = mb['binding']
@@ -269,14 +274,14 @@ def replay(ctx, spell, bv, B_, mj):
         if got != want or impls.get(sname, {}).get('n') != len(want):
             bad.append({sname: {'real': got, 'expected': want}})
     en = decode_entry_items(toks)['vertex']
-    sn = {'VA': 'v_a', 'VB': 'v_b'}
-    for fn, structs in {'e0_entry': ['VA', 'VB'], 'e1_entry': ['VB'], 'e2_entry': ['VB', 'VA']}.items():
+    sn = {'VA': 'v_a', 'VB': 'v_b', 'VC': 'v_c'}
+    for fn, structs in {'e0_entry': ['VA', 'VB'], 'e1_entry': ['VB'], 'e2_entry': ['VB', 'VA'], 'e3_entry': ['VC', 'VA']}.items():
         e = en.get(fn)
         good = (e is not None and e['n_ret'] == len(structs) and e['buffers'] == [f'{s_} :: vertex_buffer_layout ({sn[s_]})' for s_ in structs]
                 and e['params'] == [(sn[s_], 'wgpu :: VertexStepMode') for s_ in structs])
         if not good:
             bad.append({fn: {'real': e, 'expected_struct_order': structs}})
-    if sorted(impls) != ['VA', 'VB'] or any(v['count_impls'] != 1 for v in impls.values()):
+    if sorted(impls) != ['VA', 'VB', 'VC'] or any(v['count_impls'] != 1 for v in impls.values()):
         bad.append({'impls': sorted(impls)})
     det['failed'] = bad
     return bool(bad), det
